@@ -78,13 +78,22 @@ def block_pairing(ctx, cfg, fs, rule, fn_rx, pairs):
     loops = [(s, h) for (bb, s, h) in token_loops(fs) if bb.path == b.path]
     if not loops:
         raise Broken('%s: token loop not found' % b.path)
-    # the rendering loop is the last one (a first pass may only measure)
-    tsw, hdr = loops[-1]
+    # the rendering loop is the one whose BlockStart / BlockEnd arms switch on the block kind (a first pass may only measure)
     bsw = [s for s in switches(b) if s.kind == 'enum' and s.enum == 'buffer::Block']
-    start_t = tsw.target('BlockStart'); end_t = tsw.target('BlockEnd')
-    ssw = [s for s in bsw if only_via_edge(b, tsw.b, start_t, s.b)]; esw = [s for s in bsw if only_via_edge(b, tsw.b, end_t, s.b)]
-    if not ssw or not esw:
+    pick = None
+    for (tsw_, hdr_) in loops:
+        st_ = tsw_.target('BlockStart'); en_ = tsw_.target('BlockEnd')
+        if st_ is None or en_ is None:
+            continue
+        ss = [s for s in bsw if only_via_edge(b, tsw_.b, st_, s.b)]; es = [s for s in bsw if only_via_edge(b, tsw_.b, en_, s.b)]
+        if ss and es:
+            cand = (tsw_, hdr_, st_, en_, ss, es)
+            # prefer the loop that distinguishes the most block kinds (a measuring pre-pass looks at one or two)
+            if pick is None or len(set(ss[0].edges.values())) > len(set(pick[4][0].edges.values())):
+                pick = cand
+    if pick is None:
         raise Broken('%s: Block switches of the start/end arms not found' % b.path)
+    tsw, hdr, start_t, end_t, ssw, esw = pick
     def counts(sw_, entry, rx, V):
         w = Walker(b, variant_of={pkey(sw_.place): V}, max_paths=600, max_visits=2); w.stop = {hdr.bb}
         out = set()
